@@ -169,7 +169,13 @@ def gen_case(rng, i, tier):
     if rng.random() < 0.3:
         rng.shuffle(nodes)
     m = {"nodes": nodes, "edges": [[a, b] for a, b in edges], "latlon": mag == "latlon", "kind": cls}
-    return {"map": m, "mag": mag, "cls": cls, "queries": queries, "bulk": rng.random() < 0.7}
+    dups = []
+    if rng.random() < 0.25:
+        # a label added again (same or other coordinates): both backends keep the first location
+        for l, p0 in rng.sample(nodes, min(len(nodes), 2)):
+            shift = 0.0 if rng.random() < 0.4 else (rs[1] * rng.choice([1.5, -2.0]) if mag != "latlon" else 0.001)
+            dups.append([l, [p0[0] + shift, p0[1] - shift]])
+    return {"map": m, "mag": mag, "cls": cls, "queries": queries, "bulk": rng.random() < 0.7, "dups": dups}
 
 
 def _outside(box, p):
@@ -296,6 +302,10 @@ def check_case(ctx, case):
     sm = build.make_sqlite(m, ctx.scratch, bulk=case.get("bulk", True))
     ctx.count(f"class:{case['cls']}")
     try:
+        for l, loc in case.get("dups", []):
+            ctx.count("repeated_node_adds")
+            im.add_node(l, (loc[0], loc[1]))
+            sm.add_node(l, (loc[0], loc[1]), ignore_doubles=True)
         for q in case["queries"]:
             loc, r, k = tuple(q["loc"]), q["r"], q["k"]
             if q["cls"] == "infinite":
